@@ -360,7 +360,7 @@ func (ex *executor) loopFrameObligation(li *loopInfo, st *state) {
 	}
 	var goals []*Term
 	for name, h := range st.heaps {
-		if strings.HasPrefix(name, "R:") {
+		if strings.HasPrefix(name, "R:") || name == verClassName {
 			continue
 		}
 		cls := ex.eng.classes[name]
@@ -450,6 +450,7 @@ func (ex *executor) havocLoop(li *loopInfo, st *state) {
 	}
 	// loop frame (optional): restrict the havoc to the declared locations
 	var allowed func(name string, key []*Term) *Term
+	var verAllowed func(arr *Term) *Term
 	if li.lc.HasAssigns {
 		env := ex.mkEnv(nil, st, ex.root().entry, nil)
 		freshOK := false
@@ -472,9 +473,42 @@ func (ex *executor) havocLoop(li *loopInfo, st *state) {
 			}
 			return Or(alts...)
 		}
+		verAllowed = func(arr *Term) *Term {
+			var alts []*Term
+			for _, l := range locs {
+				for _, c := range l.classes {
+					if c.Name != byteClassName {
+						continue
+					}
+					switch {
+					case l.region == nil:
+						alts = append(alts, Eq(arr, l.key[0]))
+					case l.arr != nil:
+						alts = append(alts, Eq(arr, l.arr))
+					default:
+						alts = append(alts, True)
+					}
+				}
+			}
+			if freshOK {
+				alts = append(alts, ILe(alloc0, arr))
+			}
+			return Or(alts...)
+		}
 	}
 	tag := ex.fresh("lp")
 	head := map[string]*Heap{}
+	if classes[byteClassName] {
+		// versions of byte arrays possibly written in the loop
+		vc := ex.verClass()
+		vh := ex.heapOf(st, vc)
+		if verAllowed != nil {
+			va := verAllowed
+			st.heaps[vc.Name] = vh.Havoc(tag+"ver", func(key []*Term) *Term { return va(key[0]) })
+		} else {
+			st.heaps[vc.Name] = vh.Havoc(tag+"ver", nil)
+		}
+	}
 	for cn := range classes {
 		cls := ex.eng.classes[cn]
 		if cls == nil {
